@@ -49,6 +49,13 @@ class Check(PropCheck):
                     for b in perm[:10]:
                         ops.append('m_get %s %s' % (vf.enc_str(a), vf.enc_str(b)))
                 ops.append('m_taxa_index %s' % vf.enc_str(perm[0]))
+                # a refused relabelling (wrong number of names) must leave the labels, and so every by-name read, unchanged
+                wrong = (perm[1:] + [perm[0]] + ['extra']) if n % 2 else perm[1:]
+                ops.append('m_set_taxa ' + ' '.join(vf.enc_str(x) for x in wrong))
+                ops += ['m_dump', 'm_to_map']
+                for a in perm[:6]:
+                    for b in perm[:6]:
+                        ops.append('m_get %s %s' % (vf.enc_str(a), vf.enc_str(b)))
             cases.append(Case('n%d' % n, ops, {'n': n}))
         # value / name classes: names that differ only in case or are prefixes of each other, numeric-looking and non-ASCII names;
         # cells that are all +inf / all -inf / all equal / huge / subnormal (minimum and maximum search against pairwise reads)
@@ -77,6 +84,13 @@ class Check(PropCheck):
                 ops.append('m_taxa_index %s' % vf.enc_str(names[-1]))
                 ops.append('m_taxa_index %s' % vf.enc_str(names[0].swapcase()))
                 cases.append(Case('cls%d_%d' % (si, vi), ops, {'n': max(n, 3), 'distinct': False}))
+        # large matrices (implementation only): every index pair reported by indexed_iter against the integer inverse, f32 and f64 cells
+        # (a size beyond 4608 has more cells than an f32 can count exactly)
+        bigs = [('m32_', 4609), ('m32_', 5000), ('m32_', 7001), ('m_', 4609), ('m_', 6000)]
+        if self.tier != 'quick':
+            bigs += [('m32_', 12000), ('m32_', 16000), ('m_', 12000), ('m_', 16000)]
+        for bi, (pre, sz) in enumerate(bigs):
+            cases.append(Case('big%d' % bi, ['%sindexed_check %d' % (pre, sz)], {'impl_only': True, 'n': 99, 'big': sz}))
         # hook: index functions on big indices against the model (N arithmetic)
         ops = []
         for _ in range(600 if self.tier == 'quick' else 6000):
@@ -108,8 +122,9 @@ class Check(PropCheck):
         return case.meta.get('n', 0) >= 3
 
     swept = 0
+    big_cells = 0
     def extra_coverage(self):
-        return {'float_inverse_indices_checked_by_sweep': self.swept}
+        return {'float_inverse_indices_checked_by_sweep': self.swept, 'cells_of_large_matrices_checked_through_indexed_iter': self.big_cells}
 
     def predicate(self, case, il):
         bad = []
@@ -122,6 +137,15 @@ class Check(PropCheck):
                 return [(0, 'float inverse of the triangular index differs from the integer inverse at linear index %s (%s mismatches)' % (l[3], l[2]))]
             return []
         if case.cid == 'hook_samples':
+            return []
+        if case.cid.startswith('big'):
+            l = il[0] if il else ['?']
+            sz = case.meta['big']
+            if l[0] != 'ok':
+                return [(0, 'indexed iteration over a matrix of size %d: %s' % (sz, l[0]))]
+            if int(l[1]) != sz * (sz - 1) // 2 or int(l[2]) != 0:
+                return [(0, 'indexed iteration over a matrix of size %d: %s cells, %s with a wrong index pair (first: %s)' % (sz, l[1], l[2], l[3]))]
+            self.big_cells += int(l[1])
             return []
         # storage laws on the implementation's own answers
         taxa = None; cells = None
